@@ -227,9 +227,46 @@ def r14b(ctx, rep):
                                          nm, len(puts), len(clones)), [f.span])
 
 
+def r14c(ctx, rep):
+    from ..shapes import dominating_guards
+    facts = ctx["facts"]
+    rep.rule("R14c", "structural equality of vectors compares lengths first: in Vm::compare_vector every return of "
+             "Ok(true) is dominated by the edge on which the two vectors' lengths were found equal; an element-wise loop "
+             "bounded by one operand alone makes a vector equal? to any longer vector it is a prefix of.")
+    f = need(rep, "R14c", facts, "marwood::vm::compare::<impl marwood::vm::Vm>::compare_vector")
+    if f is None:
+        return
+    trues = []
+    for bb, j, s in f.stmts():
+        rv = s["rv"]
+        if not s["lhs"]["p"] and s["lhs"]["l"] == 0 and rv["k"] == "agg" and rv.get("variant") == "Ok":
+            c = op_const(rv["ops"][0]) if rv["ops"] else None
+            if c is not None and c.get("int") == 1:
+                trues.append((bb, s))
+    if not trues:
+        rep.anchor_lost("R14c", "Ok(true) return in compare_vector")
+        return
+    for i, (bb, s) in enumerate(trues):
+        ok = False
+        for g_bb, cond, taken, gt in dominating_guards(f, bb):
+            go = f.origin(cond)
+            if go[0] == "rv" and go[1]["rv"]["k"] == "bin" and go[1]["rv"]["op"] in ("Ne", "Eq"):
+                a, b = f.origin(go[1]["rv"]["a"]), f.origin(go[1]["rv"]["b"])
+                if a[0] == "call" and b[0] == "call" and callee(a[1]).endswith("Vector::len") and callee(b[1]).endswith("Vector::len") \
+                        and a[1] is not b[1]:
+                    equal_edge = (go[1]["rv"]["op"] == "Ne" and taken == 0) or (go[1]["rv"]["op"] == "Eq" and taken == "else")
+                    if equal_edge:
+                        ok = True
+        (rep.ok if ok else rep.fail)("R14c", "R14c|compare_vector|true#%d" % (i + 1),
+                                     "compare_vector answers true only after finding the lengths equal" if ok else
+                                     "compare_vector can answer true without having compared the two lengths: a vector is "
+                                     "equal? to every longer vector that starts with its elements", [s["loc"]])
+
+
 def run(ctx, rep):
     r14a(ctx, rep)
     r14b(ctx, rep)
+    r14c(ctx, rep)
     rep.not_decided += ["that each procedure returns what R7RS specifies (value-level)",
                         "offsets in vector-copy! (i + at instead of i - start + at is a wrong-answer defect no static rule here decides)",
                         "error-versus-wrong-answer for out-of-range indices", "equal?"]
